@@ -218,8 +218,19 @@ func runC19(c *Ctx, r *Report, tier string) {
 		call := in.(*ssa.Call)
 		switch c.term(call.Call.Args[0]) {
 		case "ErrShortNameTooLong":
-			_, ok := c.Requires(ss, isInstr(in), litHas(true, `lt(1, call:unicode/utf8.RuneCountInString(call:(*multiTag).Get(new:multiTag, "short")))`), nil)
-			r.Check(ok, "CHECKS", sn, "short name too long REQ(character count > 1)", c.ipos(in), "guarded by RuneCountInString(short) > 1", "the short-name check does not count characters of the short tag")
+			// at the failure site the character count of the short tag is provably ≥ 2
+			// (whatever form the test takes: `rc > 1`, a switch on the count, a helper, …)
+			ok := false
+			for _, cnt := range c.instrs(ss, c.isCallTo("unicode/utf8.RuneCountInString")) {
+				cv := cnt.(*ssa.Call)
+				if c.term(cv.Call.Args[0]) != `call:(*multiTag).Get(new:multiTag, "short")` {
+					continue
+				}
+				if c.npProve(in, c.newFacts(in.Parent()), func(n *npCtx) bool { return n.provesLe(lin{"", 2}, n.linOf(cv)) }) {
+					ok = true
+				}
+			}
+			r.Check(ok, "CHECKS", sn, "short name too long REQ(character count > 1)", c.ipos(in), "RuneCountInString(short) ≥ 2 follows from the dominating branch conditions", "the short-name check does not count characters of the short tag")
 		case "ErrInvalidTag":
 			_, a := c.Requires(ss, isInstr(in), litHas(true, "call:(*Option).isBool(new:Option)"), nil)
 			_, b := c.Requires(ss, isInstr(in), litHas(true, "nonnil(Option.Default(new:Option))"), nil)
